@@ -1,0 +1,54 @@
+//go:build verif
+
+// Package verifhook provides scheduling hooks for the verification harness.
+package verifhook
+
+import (
+	"math/rand"
+	"os"
+	"runtime"
+	"strconv"
+	"sync"
+	"time"
+)
+
+var (
+	mu      sync.Mutex
+	rng     *rand.Rand
+	enabled bool
+)
+
+func init() {
+	if s := os.Getenv("VERIF_YIELD_SEED"); s != "" {
+		n, _ := strconv.ParseInt(s, 10, 64)
+		rng = rand.New(rand.NewSource(n))
+		enabled = true
+	}
+}
+
+// SetSeed (re)seeds the yield decisions; seed 0 disables them.
+func SetSeed(seed int64) {
+	mu.Lock()
+	defer mu.Unlock()
+	enabled = seed != 0
+	rng = rand.New(rand.NewSource(seed))
+}
+
+// Yield marks a point where a goroutine touches state shared with other goroutines. With the
+// hooks enabled it randomly yields the processor or sleeps briefly to widen the set of
+// interleavings explored.
+func Yield(site string) {
+	mu.Lock()
+	if !enabled {
+		mu.Unlock()
+		return
+	}
+	x := rng.Intn(8)
+	mu.Unlock()
+	switch {
+	case x < 3:
+		runtime.Gosched()
+	case x == 3:
+		time.Sleep(time.Duration(50+x*20) * time.Microsecond)
+	}
+}
